@@ -111,6 +111,51 @@ theorem init_module_is_package (above dirs : List Part) (hne : above ++ dirs ≠
   rw [joinDots_snoc _ _ hne, ← hi]
   exact dropInitSuffix_append _
 
+/-- Distinct plain modules get distinct dotted paths: two files below one component directory
+(or one app directory) never collide on one import name, so "each once" carries over from files
+to modules.  (For names with dots this fails — `x.y.py` and `x/y.py` both give `….x.y`, the
+known finding `dotted-names-unimportable`; witness below.) -/
+theorem dotpath_injective_on_plain_modules (above dirs₁ dirs₂ : List Part) (b₁ b₂ : Part)
+    (habove : ∀ p ∈ above, PlainPart p)
+    (hd₁ : ∀ p ∈ dirs₁, PlainPart p) (hd₂ : ∀ p ∈ dirs₂, PlainPart p)
+    (hb₁ : PlainPart b₁) (hb₂ : PlainPart b₂)
+    (hi₁ : b₁ ≠ "__init__".toList) (hi₂ : b₂ ≠ "__init__".toList)
+    (hne₁ : above ++ dirs₁ ≠ []) (hne₂ : above ++ dirs₂ ≠ []) :
+    (dotPath none above (dirs₁ ++ [b₁ ++ ".py".toList]) =
+        dotPath none above (dirs₂ ++ [b₂ ++ ".py".toList]) → dirs₁ = dirs₂ ∧ b₁ = b₂) ∧
+    ∀ pkg : Part, dotPath (some pkg) above (dirs₁ ++ [b₁ ++ ".py".toList]) =
+        dotPath (some pkg) above (dirs₂ ++ [b₂ ++ ".py".toList]) → dirs₁ = dirs₂ ∧ b₁ = b₂ := by
+  have key : joinDots (above ++ dirs₁ ++ [b₁]) = joinDots (above ++ dirs₂ ++ [b₂]) →
+      dirs₁ = dirs₂ ∧ b₁ = b₂ := by
+    intro h
+    have hall : ∀ (ds : List Part) (b : Part), (∀ p ∈ ds, PlainPart p) → PlainPart b →
+        ∀ p ∈ above ++ ds ++ [b], PlainPart p := by
+      intro ds b hds hb p hp
+      rcases List.mem_append.mp hp with h1 | h1
+      · rcases List.mem_append.mp h1 with h2 | h2
+        · exact habove p h2
+        · exact hds p h2
+      · rw [List.mem_singleton.mp h1]; exact hb
+    have e := joinDots_injective _ _ (hall dirs₁ b₁ hd₁ hb₁) (hall dirs₂ b₂ hd₂ hb₂) h
+    rw [List.append_assoc, List.append_assoc] at e
+    have e' := List.append_cancel_left e
+    have := List.append_inj' e' rfl
+    exact ⟨this.1, by simpa using this.2⟩
+  constructor
+  · intro h
+    rw [(dotpath_correct above dirs₁ b₁ hb₁ hi₁ hne₁).1,
+      (dotpath_correct above dirs₂ b₂ hb₂ hi₂ hne₂).1] at h
+    exact key h
+  · intro pkg h
+    rw [(dotpath_correct above dirs₁ b₁ hb₁ hi₁ hne₁).2 pkg,
+      (dotpath_correct above dirs₂ b₂ hb₂ hi₂ hne₂).2 pkg] at h
+    exact key (by simpa using h)
+
+/-- Sharpness of the plainness hypothesis: with a dot in a name two different files collide. -/
+example : dotPath none ["components".toList] ["x.y.py".toList] =
+    dotPath none ["components".toList] ["x".toList, "y.py".toList] := by
+  decide
+
 /-- The `".." in module_path` filter never drops a plain module: it only removes paths with an
 empty or dot-adjacent part, which no import statement could name. -/
 theorem dotdot_filter_keeps_plain_modules (above dirs : List Part) (base : Part)
